@@ -154,7 +154,7 @@ func (g *gen) generateSlotSubsets() []*Input {
 					names = append(names, s.key[4:])
 				}
 			}
-			if !g.cfg.Thorough() && (n == 3 || (n == 2 && fam.zero) || (n == 4 && !fam.zero)) {
+			if !g.cfg.Thorough() && (n == 3 || (n == 2 && (fam.zero || (mask != 9 && mask != 6))) || (n == 4 && !fam.zero)) {
 				continue
 			}
 			label := fam.tag + "-" + strings.Join(names, "+")
